@@ -1,1 +1,381 @@
-fn main() { println!("vhpy"); }
+//! C20 harness: the py-bindings build of the chia crates inside an embedded Python interpreter.
+//!   vhpy list                               names of the registry
+//!   vhpy record --schema <jschema.json> --out <trace.ndjson> [--cases <TLC cases>] [--seed N]
+//!               [--gen N] [--arb N] [--own K] [--max-bytes N] [--types a,b,..]
+//! One trace event per value: the Streamable encoding, the JSON form produced by to_json_dict (tagged model
+//! values), the result of from_json_dict on it, and a list of single-position corruptions with the verdict
+//! of from_json_dict on each. Everything is judged by spec/trace/Trace_Json.tla.
+#![allow(clippy::too_many_arguments)]
+mod pyj;
+mod schema;
+mod types;
+mod util;
+
+use pyj::J;
+use pyo3::prelude::*;
+use rand::rngs::StdRng;
+use rand::Rng;
+use schema::{Corr, JSchema, Pools};
+use serde_json::{json, Map, Value};
+use std::collections::BTreeMap;
+use types::{Entry, FromRes};
+use util::*;
+
+fn opt_bytes(b: &Option<Vec<u8>>) -> Value {
+    jbytes(b.as_deref().unwrap_or(&[]))
+}
+
+fn back_json(f: &FromRes) -> Value {
+    json!({"r": f.r, "bytes": opt_bytes(&f.bytes), "has_bytes": f.bytes.is_some(), "hash": opt_bytes(&f.hash), "eq": f.eq, "msg": f.msg})
+}
+
+#[derive(Default)]
+struct Stats {
+    by_src: BTreeMap<String, usize>,
+    corr_by_class: BTreeMap<String, usize>,
+    corr_ok: usize,
+    corr_err: usize,
+    corr_panic: usize,
+    invalid_generated: usize,
+    skipped_large: usize,
+    unlocated: usize,
+    rebuilt_differs: usize,
+    walk_failed: usize,
+    arb_noncanonical: usize,
+}
+
+struct Cx<'a> {
+    sch: &'a JSchema,
+    own_k: usize,
+    max_bytes: usize,
+}
+
+fn pools() -> Pools {
+    use chia_bls::{sign, SecretKey};
+    let mut g1 = vec![{
+        let mut v = vec![0u8; 48];
+        v[0] = 0xc0;
+        v
+    }];
+    let mut g2 = vec![{
+        let mut v = vec![0u8; 96];
+        v[0] = 0xc0;
+        v
+    }];
+    for i in 0..6u8 {
+        let sk = SecretKey::from_seed(&[i; 32]);
+        g1.push(sk.public_key().to_bytes().to_vec());
+        g2.push(sign(&sk, [i, 1, 2]).to_bytes().to_vec());
+    }
+    let _ = SecretKey::from_seed(&[9; 32]).to_bytes();
+    let prog = ["80", "01", "ff0180", "ff01ff0280", "83616263", "ffff0101ff02ffff04ffff0101ff0280", "c04001020304050607080910111213141516171819202122232425262728293031323334353637383940414243444546474849505152535455565758596061626364"]
+        .iter()
+        .map(|h| hex::decode(h).unwrap())
+        .collect();
+    Pools { g1, g2, prog }
+}
+
+/// choose at most k corruptions, every class represented before any class gets a second one
+fn sample(mut all: Vec<Corr>, k: usize, r: &mut StdRng) -> Vec<Corr> {
+    if all.len() <= k {
+        return all;
+    }
+    for i in (1..all.len()).rev() {
+        all.swap(i, r.random_range(0..=i));
+    }
+    let mut groups: BTreeMap<&'static str, Vec<Corr>> = BTreeMap::new();
+    for c in all {
+        groups.entry(c.cls).or_default().push(c);
+    }
+    let mut out = Vec::new();
+    while out.len() < k {
+        let mut any = false;
+        for g in groups.values_mut() {
+            if out.len() < k {
+                if let Some(c) = g.pop() {
+                    out.push(c);
+                    any = true;
+                }
+            }
+        }
+        if !any {
+            break;
+        }
+    }
+    out
+}
+
+fn event(py: Python<'_>, cx: &Cx, e: &Entry, b: &[u8], src: &str, tlc_cs: Option<&Value>, r: &mut StdRng, st: &mut Stats) -> Option<Value> {
+    let term = cx.sch.top.get(e.name);
+    let tr = (e.to_json)(py, b);
+    if tr.r == "parse_err" {
+        st.invalid_generated += 1;
+        if src == "tlc" {
+            panic!("TLC case of type {} is not a valid encoding: {} {:?}", e.name, tr.msg, b);
+        }
+        return None;
+    }
+    let mut ev = Map::new();
+    ev.insert("type".into(), json!(e.name));
+    ev.insert("src".into(), json!(src));
+    ev.insert("m".into(), json!(term.is_some()));
+    ev.insert("bytes".into(), jbytes(b));
+    ev.insert("hash".into(), opt_bytes(&tr.hash));
+    ev.insert("to".into(), json!(tr.r));
+    let Some(obj) = tr.obj else {
+        // to_json_dict itself failed on a valid value: recorded, judged by the trace spec
+        ev.insert("json".into(), J::Other(tr.msg.clone()).to_trace());
+        ev.insert("back".into(), json!({"r": "err", "bytes": [], "has_bytes": false, "hash": [], "eq": false, "msg": "to_json_dict failed"}));
+        ev.insert("orc".into(), json!({"g1": [], "g2": [], "prog": [], "qs": []}));
+        ev.insert("cs".into(), json!([]));
+        ev.insert("rebuilt".into(), json!(true));
+        ev.insert("walk".into(), json!(true));
+        return Some(Value::Object(ev));
+    };
+    let obj = obj.bind(py);
+    let j = pyj::from_py(obj).unwrap_or_else(|e| J::Other(e.to_string()));
+    ev.insert("json".into(), j.to_trace());
+    let back = (e.from_json)(py, obj, Some(b));
+    ev.insert("back".into(), back_json(&back));
+    // the model value rebuilt as a fresh Python object must behave like the original object
+    let same = match pyj::to_py(py, &j) {
+        Ok(o2) => {
+            let rb = (e.from_json)(py, &o2, Some(b));
+            rb.r == back.r && rb.bytes == back.bytes && rb.eq == back.eq
+        }
+        Err(_) => false,
+    };
+    if !same {
+        st.rebuilt_differs += 1;
+    }
+    ev.insert("rebuilt".into(), json!(same));
+    let mut cs_out = Vec::new();
+    if let Some(term) = term {
+        let (facts, walked) = cx.sch.facts(term, b);
+        if !walked {
+            st.walk_failed += 1;
+        }
+        ev.insert("orc".into(), facts.to_json());
+        ev.insert("walk".into(), json!(walked));
+        let corrs: Vec<Corr> = match tlc_cs {
+            Some(list) => {
+                let mut v = Vec::new();
+                for c in list.as_array().cloned().unwrap_or_default() {
+                    let path: Vec<usize> = c["p"].as_array().map(|a| a.iter().map(|x| x.as_u64().unwrap_or(0) as usize).collect()).unwrap_or_default();
+                    match cx.sch.corr_at(term, &j, &path, c["c"].as_str().unwrap_or("")) {
+                        Some(x) => v.push(x),
+                        None => st.unlocated += 1,
+                    }
+                }
+                v
+            }
+            None => {
+                let mut all = Vec::new();
+                cx.sch.all_corr(term, &j, &mut vec![], &mut vec![], &mut all);
+                let k = if j.size() > 4000 { cx.own_k / 2 } else { cx.own_k };
+                sample(all, k, r)
+            }
+        };
+        for c in corrs {
+            let Some(cj) = schema::apply(&j, &c.path, &c.nv) else {
+                st.unlocated += 1;
+                continue;
+            };
+            let res = match pyj::to_py(py, &cj) {
+                Ok(o2) => (e.from_json)(py, &o2, Some(b)),
+                Err(e) => FromRes { r: "tool", bytes: None, hash: None, eq: false, msg: e.to_string() },
+            };
+            *st.corr_by_class.entry(c.cls.to_string()).or_default() += 1;
+            match res.r {
+                "ok" => st.corr_ok += 1,
+                "panic" => st.corr_panic += 1,
+                _ => st.corr_err += 1,
+            }
+            let (mut jp, mut j1, mut j2) = (vec![], vec![], vec![]);
+            if let Some((kind, bytes)) = &c.fact {
+                match *kind {
+                    "prog" => jp.push((bytes.clone(), schema::prog_len(bytes))),
+                    "g1" => j1.push((bytes.clone(), schema::g1_fact(bytes))),
+                    _ => j2.push((bytes.clone(), schema::g2_fact(bytes))),
+                }
+            }
+            let mut co = json!({"p": c.path, "c": c.cls, "nv": match &c.nv { Some(x) => x.to_trace(), None => json!({"k": "none"}) }, "r": res.r});
+            if c.fact.is_some() {
+                co["f"] = schema::facts_json(&jp, &j1, &j2);
+            }
+            if res.r == "ok" {
+                co["back"] = opt_bytes(&res.bytes);
+            }
+            cs_out.push(co);
+        }
+    } else {
+        ev.insert("orc".into(), json!({"g1": [], "g2": [], "prog": [], "qs": []}));
+        ev.insert("walk".into(), json!(true));
+    }
+    ev.insert("cs".into(), Value::Array(cs_out));
+    *st.by_src.entry(src.to_string()).or_default() += 1;
+    Some(Value::Object(ev))
+}
+
+/// round trip of a raw `arbitrary` value that is not the decoding of its own encoding (or has none)
+fn raw_event(py: Python<'_>, e: &Entry, a: &types::ArbRes) -> Value {
+    let j = match &a.obj {
+        Some(o) => pyj::from_py(o.bind(py)).unwrap_or_else(|e| J::Other(e.to_string())),
+        None => J::Other("to_json_dict failed".into()),
+    };
+    json!({"type": e.name, "src": "raw", "m": false, "bytes": opt_bytes(&a.bytes), "hash": opt_bytes(&a.hash), "to": if a.obj.is_some() { "ok" } else { "err" },
+           "json": j.to_trace(), "back": back_json(&a.back), "orc": {"g1": [], "g2": [], "prog": [], "qs": []}, "cs": [], "rebuilt": true, "walk": true})
+}
+
+fn unmodelled_values(name: &str, r: &mut StdRng) -> Vec<Vec<u8>> {
+    use chia_bls::{sign, SecretKey};
+    let mut out = Vec::new();
+    for _ in 0..4 {
+        let seed: [u8; 32] = r.random();
+        let sk = SecretKey::from_seed(&seed);
+        match name {
+            "SecretKey" => out.push(sk.to_bytes().to_vec()),
+            "GTElement" => out.push(sign(&sk, b"m").pair(&sk.public_key()).to_bytes().to_vec()),
+            _ => {}
+        }
+    }
+    out
+}
+
+fn record(args: &Args) {
+    let sch = JSchema::load(args.req("schema"));
+    let mut out = Out::create(args.req("out"));
+    let seed = args.u64("seed", 1);
+    let mut r = rng(seed ^ 0xC20);
+    let n_gen = args.u64("gen", 4) as usize;
+    let n_arb = args.u64("arb", 4) as usize;
+    let cx = Cx { sch: &sch, own_k: args.u64("own", 24) as usize, max_bytes: args.u64("max-bytes", 12000) as usize };
+    let only: Option<Vec<String>> = args.get("types").map(|s| s.split('|').map(|x| x.to_string()).collect());
+    let reg = types::registry();
+    let pools = pools();
+    let mut st = Stats::default();
+    let mut types_seen = std::collections::BTreeSet::new();
+    Python::initialize();
+    Python::attach(|py| {
+        // (1) TLC cases
+        if let Some(p) = args.get("cases") {
+            let every = args.u64("case-every", 1) as usize;
+            for (i, c) in read_ndjson(p).iter().enumerate() {
+                let name = c["type"].as_str().unwrap_or("");
+                if let Some(o) = &only {
+                    if !o.iter().any(|x| x == name) {
+                        continue;
+                    }
+                }
+                if every > 1 && (i + seed as usize) % every != 0 {
+                    continue;
+                }
+                let Some(e) = reg.iter().find(|e| e.name == name) else { panic!("TLC case for a type outside the registry: {name}") };
+                let b = from_jbytes(&c["bytes"]);
+                if let Some(ev) = event(py, &cx, e, &b, "tlc", Some(&c["cs"]), &mut r, &mut st) {
+                    types_seen.insert(e.name);
+                    out.emit(&ev);
+                }
+            }
+        }
+        // (2) schema-generated and arbitrary values, the harness's own enumeration of corruptions
+        for e in &reg {
+            if let Some(o) = &only {
+                if !o.iter().any(|x| x == e.name) {
+                    continue;
+                }
+            }
+            if let Some(term) = sch.top.get(e.name) {
+                for i in 0..(2 + n_gen) {
+                    let mode = if i < 2 { i as u8 } else { 2 };
+                    let mut b = Vec::new();
+                    sch.generate(term, &mut r, &pools, mode, 0, &mut b);
+                    if b.len() > cx.max_bytes {
+                        st.skipped_large += 1;
+                        continue;
+                    }
+                    let src = match mode { 0 => "min", 1 => "max", _ => "gen" };
+                    if let Some(ev) = event(py, &cx, e, &b, src, None, &mut r, &mut st) {
+                        types_seen.insert(e.name);
+                        out.emit(&ev);
+                    }
+                }
+            } else {
+                for b in unmodelled_values(e.name, &mut r) {
+                    if let Some(ev) = event(py, &cx, e, &b, "leaf", None, &mut r, &mut st) {
+                        types_seen.insert(e.name);
+                        out.emit(&ev);
+                    }
+                }
+            }
+            if let Some(arb) = e.arb {
+                for _ in 0..n_arb {
+                    let len = r.random_range(16..1500);
+                    let mut data = vec![0u8; len];
+                    r.fill(&mut data[..]);
+                    // `arbitrary` draws lengths from the end of the buffer: keep collections small
+                    if r.random_range(0..3) > 0 {
+                        for x in data.iter_mut().rev().take(64) {
+                            *x &= 3;
+                        }
+                    }
+                    let Some(a) = arb(py, &data) else { continue };
+                    match &a.canonical {
+                        Some(b) if b.len() <= cx.max_bytes => {
+                            if let Some(ev) = event(py, &cx, e, b, "arb", None, &mut r, &mut st) {
+                                types_seen.insert(e.name);
+                                out.emit(&ev);
+                            }
+                        }
+                        Some(_) => st.skipped_large += 1,
+                        None => {
+                            st.arb_noncanonical += 1;
+                            if a.bytes.as_ref().map(|b| b.len()).unwrap_or(0) <= cx.max_bytes {
+                                out.emit(&raw_event(py, e, &a));
+                                *st.by_src.entry("raw".into()).or_default() += 1;
+                            }
+                        }
+                    }
+                }
+            }
+        }
+    });
+    let n = out.finish();
+    println!(
+        "{}",
+        json!({"events": n, "by_src": st.by_src, "corr_by_class": st.corr_by_class, "corr_ok": st.corr_ok, "corr_err": st.corr_err, "corr_panic": st.corr_panic,
+               "invalid_generated": st.invalid_generated, "skipped_large": st.skipped_large, "unlocated": st.unlocated, "rebuilt_differs": st.rebuilt_differs,
+               "walk_failed": st.walk_failed, "arb_noncanonical": st.arb_noncanonical, "types": types_seen.len(), "registry": reg.len()})
+    );
+}
+
+fn main() {
+    let argv: Vec<String> = std::env::args().collect();
+    if argv.len() < 2 {
+        eprintln!("usage: vhpy <list|record> [--key value ...]");
+        std::process::exit(2);
+    }
+    std::panic::set_hook(Box::new(|info| {
+        if !util::QUIET.with(|q| q.get()) {
+            eprintln!("harness panic: {info}");
+        }
+    }));
+    let args = Args::parse(&argv[2..]);
+    match argv[1].as_str() {
+        "list" => {
+            for e in types::registry() {
+                println!("{}", e.name);
+            }
+        }
+        "record" => {
+            let h = std::thread::Builder::new().stack_size(1 << 30).spawn(move || record(&args)).expect("spawn");
+            if h.join().is_err() {
+                std::process::exit(101);
+            }
+        }
+        other => {
+            eprintln!("unknown mode {other}");
+            std::process::exit(2);
+        }
+    }
+}
